@@ -28,6 +28,7 @@ type canonT struct {
 	fnName  map[*ssa.Function]string   // function -> canonical qualified name
 	typ     map[string]*types.Named    // "pkgRel:name" -> type
 	typName map[*types.TypeName]string // type -> canonical name
+	flatten map[*types.Var]map[string]string
 	notes   []string
 }
 
@@ -39,7 +40,7 @@ func setupCanon(p *load.Program) {
 		return
 	}
 	c := &canonT{p: p, field: map[*types.Var]string{}, fn: map[string]*ssa.Function{}, fnName: map[*ssa.Function]string{},
-		typ: map[string]*types.Named{}, typName: map[*types.TypeName]string{}}
+		typ: map[string]*types.Named{}, typName: map[*types.TypeName]string{}, flatten: map[*types.Var]map[string]string{}}
 	canon = c
 	ir.FieldNameHook = func(v *types.Var) string {
 		if a, ok := c.field[v]; ok {
@@ -48,6 +49,7 @@ func setupCanon(p *load.Program) {
 		return v.Name()
 	}
 	ir.FuncNameHook = func(f *ssa.Function) string { return c.fnName[f] }
+	ir.FlattenHook = func(v *types.Var) map[string]string { return c.flatten[v] }
 	ir.TypeNameHook = func(tn *types.TypeName) string {
 		if a, ok := c.typName[tn]; ok {
 			return a
@@ -347,6 +349,13 @@ func (c *canonT) resolve() {
 								}
 							}
 						}
+					}
+				}
+				// the parameters kept as one struct-typed field instead of five copies
+				if st != nil {
+					if pf := uniqueField(st, func(t types.Type) bool { return c.isNamedT(t, "internal/parser", "Params") && !isPtr(t) }); pf != nil {
+						c.flatten[pf] = map[string]string{"Spec": "spec", "Options": "options", "OptionsIdx": "optionsIdx", "Args": "args", "ArgsIdx": "argsIdx"}
+						c.notes = append(c.notes, "fields of parser."+pf.Name()+" (Params) play the roles of spec/options/optionsIdx/args/argsIdx")
 					}
 				}
 				c.aliasField(st, "tkpos", uniqueField(st, isBasic(types.Int)))
